@@ -207,7 +207,11 @@ impl<'a, G: CatalogGateway> ShowExecutionPipeline<'a, G> {
 
         let sink = delta_refresher.take_sink()?;
         let outcome = self.build_outcome(entry, sink, initial_high_water);
+        #[cfg(sneldb_verif)]
+        crate::verif_hooks::vp("show_before_catalog");
         self.persist_outcome(&mut catalog_handle, outcome)?;
+        #[cfg(sneldb_verif)]
+        crate::verif_hooks::vp("show_catalog_saved");
 
         let total_time = show_start.elapsed();
         tracing::warn!(
